@@ -301,6 +301,8 @@ func (vc *VC) floatConst(v constant.Value) Value {
 func (vc *VC) ensureFloatFuns() {
 	vc.B.DefineFun("f_isnan", []Sort{SInt}, SBool, "", nil)
 	vc.B.DefineFun("f_isinf", []Sort{SInt}, SBool, "", nil)
+	vc.B.DefineFun("f_isposinf", []Sort{SInt}, SBool, "", nil)
+	vc.B.DefineFun("f_isneginf", []Sort{SInt}, SBool, "", nil)
 	vc.B.DefineFun("f_iszero", []Sort{SInt}, SBool, "", nil)
 	vc.B.DefineFun("f_32to64", []Sort{SInt}, SInt, "", nil)
 	vc.B.DefineFun("f_64to32", []Sort{SInt}, SInt, "", nil)
@@ -695,6 +697,9 @@ func (f *Frame) execInstr(st *State, nk nodeKey, in ssa.Instruction) (bool, erro
 				if err != nil {
 					// not evaluable on this return path (variable not in scope): unconstrained
 					t = f.vc.B.Fresh(f.prefix+"ghost_"+g.Name, SInt)
+					if os.Getenv("GOVC_DBGGHOST") != "" {
+						fmt.Fprintf(os.Stderr, "ghost %s at line %d: %v\n", g.Name, ri.line, err)
+					}
 				}
 				ri.ghosts = append(ri.ghosts, VT{t})
 			}
@@ -873,6 +878,30 @@ func (f *Frame) execAlloc(st *State, x *ssa.Alloc) {
 	sz := sizeOf(t)
 	vc.fact(B.And(B.Lt(B.Int(0), a), B.Le(B.Add(a, B.Int(sz)), B.Big(maxAddr))))
 	vc.freshRegion(st, a, B.Int(sz))
+	// a new object does not overlap the objects the typed pointer parameters point to (they were live on entry)
+	for _, prm := range f.fn.Params {
+		pt, ok := prm.Type().Underlying().(*types.Pointer)
+		if !ok {
+			continue
+		}
+		var pa *Term
+		switch pv := f.lookup(st, prm).(type) {
+		case VT:
+			pa = pv.T
+		case VPtr:
+			if pv.Cell == nil {
+				pa = pv.Addr
+			}
+		}
+		if pa == nil {
+			continue
+		}
+		psz := sizeOf(pt.Elem())
+		if psz <= 0 {
+			continue
+		}
+		vc.fact(B.Or(B.Eq(pa, B.Int(0)), B.Le(B.Add(a, B.Int(sz)), pa), B.Le(B.Add(pa, B.Int(psz)), a)))
+	}
 	if arr, ok := t.Underlying().(*types.Array); ok {
 		if _, _, isInt := intInfo(arr.Elem()); isInt && sz <= 64 {
 			M := vc.heapGet(st, "M")
